@@ -18,7 +18,13 @@ RULE = ("address values of 10 classes (IPv4, IPv4 edges, IPv4-mapped, random IPv
         "multicast); 9 runs of 2000-4000 requests for distinct hosts through the cache stage "
         "and ONE tcp / udp / icmp filler shared by 2-16 workers of NewPacketMultiGenerator (per frame: Ethernet destination = "
         "resolution of the frame's own IPv4 destination); getGatewayMAC on this host and on a multi-homed host (network "
-        "namespace with two uplinks of different metric and a stub interface, caches knowing both / own / other / no gateway); non-trivial = accepted text / loaded file with "
+        "namespace with two uplinks of different metric and a stub interface, caches knowing both / own / other / no gateway); large "
+        "cache files as the ARP scan prints them with 65536 / 65537 / a seed-chosen 65538..73537 / 131072 DISTINCT addresses (own MAC "
+        "each, one line in 16 in the mapped spelling, repeated lines for edge and random positions) through FillCache, then Get on "
+        "both address forms and the cache stage + one filler for the positions 0, 1, 65535, 65536, 65537, last, the repeated ones, "
+        "their +-65536 neighbours and 40 random ones plus hosts outside the file, judged by the property on the observation alone "
+        "(a probe for X carries the MAC of the LAST line for X, else the gateway MAC, else an error; files of this size are not "
+        "sent through the model's vm_compute); non-trivial = accepted text / loaded file with "
         "entries / chain with at least one reply; distinct by generator string")
 
 CODES = {1: "IP.String differs from the model's ip_text", 2: "HardwareAddr.String differs from mac_text",
@@ -115,6 +121,12 @@ def describe(o):
         d["requests"] = [(q["dst"], "error" if q["err"] else q["dstmac"], q.get("filler"), q.get("ethdst")) for q in o.get("reqs") or []]
     elif t == "gw":
         d.update({k: o.get(k) for k in ("flag", "has_flag", "gwip", "route_err", "gotmac", "gotnil", "ok")})
+    elif t == "big":
+        d["lines"], d["distinct_addresses"], d["file_construction_and_excerpt"] = o.get("lines"), o.get("distinct"), o.get("excerpt")
+        d["gateway_mac"] = o.get("gw") if o.get("has_gw") else None
+        d["get"] = [(q["ip"], q["mac"]) for q in (o.get("queries") or [])[:24]]
+        d["requests"] = [(q["dst"], "error" if q["err"] else q["dstmac"], q.get("filler"), q.get("ethdst")) for q in (o.get("reqs") or [])[:16]]
+        d["judge"] = "property on the observation alone (file too large for the model's vm_compute)"
     return d
 
 
@@ -187,10 +199,10 @@ def run(ctx):
         ctx.skipped.append("%d getGatewayMAC cases skipped: %s" % (len(skipped), skipped[0].get("class")))
     for o in rows:
         ctx.count(key_of(o) if o["t"] not in ("fill",) else "fill", o["gen"], nontrivial=bool(o.get("nontrivial")),
-                  sample=describe(o) if o["t"] in ("chain", "fill") else None)
+                  sample=describe(o) if o["t"] in ("chain", "fill", "big") else None)
         if o.get("spec"):
             report(ctx, o, o["spec"])
-    model_rows = [o for o in rows if o["t"] not in ("race", "mux")]   # judged on the implementation alone
+    model_rows = [o for o in rows if o["t"] not in ("race", "mux", "big")]   # judged on the implementation alone
     if model_ok and model_rows:
         nshards = 16 if quick else 64
         parts = [model_rows[i::nshards] for i in range(nshards)] if len(model_rows) >= nshards else [model_rows]
@@ -213,6 +225,13 @@ def run(ctx):
         for o in more:
             if o.get("spec"):
                 report(ctx, o, o["spec"])
+    nbig = [o for o in rows if o["t"] == "big"]
+    if nbig:
+        ctx.info.append("large-cache stage: %d files (%s lines; up to %d distinct addresses) loaded by the real FillCache, %d Get answers and "
+                        "%d requests through the cache stage judged by the property on the observation alone - not evaluated by the "
+                        "Coq model (file size); C11_last_wins / C11_never_other_host state it for files of any length" %
+                        (len(nbig), ", ".join(str(o.get("lines")) for o in nbig), max(o.get("distinct", 0) for o in nbig),
+                         sum(len(o.get("queries") or []) for o in nbig), sum(len(o.get("reqs") or []) for o in nbig)))
     if getattr(ctx, "more_findings", 0):
         ctx.info.append("%d further failing inputs of already reported classes were not written out" % ctx.more_findings)
     return ctx.finish(rule=RULE)
